@@ -25,14 +25,17 @@ ENCODED = ["twisted.conch.ssh.channel:SSHChannel.write", "twisted.conch.ssh.chan
            "twisted.conch.ssh.connection:SSHConnection.ssh_CHANNEL_EXTENDED_DATA",
            "twisted.conch.ssh.connection:SSHConnection.adjustWindow",
            "twisted.conch.ssh.connection:SSHConnection.sendClose"]
-BOUNDS = {"quick": {"pk": 2, "hpk": 1, "hist": 3, "d": 3, "cap": 1 << 20},
-          "thorough": {"pk": 3, "hpk": 1, "hist": 4, "d": 4, "cap": 1 << 20}}
+BOUNDS = {"quick": {"pk": 2, "hpk": 1, "hs": 1, "hist": 3, "d": 3, "cap": 1 << 20},
+          "thorough": {"pk": 3, "hpk": 1, "hs": 2, "hist": 4, "d": 4, "cap": 1 << 20}}
 B = {}
 BOUNDS_TEXT = ("sender, inductive steps: remote window any int >= 0, max packet any int >= 1, buffered normal data "
                "and <= 2 buffered extended entries of any length <= pk*maxpacket (<= cap = 1 MiB), one operation "
                "(write / writeExtended of any length <= pk*maxpacket, addWindowBytes of any increment <= cap, "
                "loseConnection); sender histories of <= hist operations from a fresh channel followed by a final "
                "window grant; receiver: window size/left, max packet any ints, two incoming packets of 0..d bytes, "
+               "re-entrancy: addWindowBytes on an arbitrary buffered state / after two writes with a startWriting() "
+               "hook that writes nothing / normal / extended (type 1 or 2) data of any length <= hpk*maxpacket "
+               "(buffered items <= hpk*maxpacket there; the two initial writes to streams 0..hs); "
                "channel open or closing (loseConnection requested with outgoing data still buffered)")
 OUTSIDE = ["SSH packet encoding of outgoing data (struct.pack / NS): SSHConnection.sendData/sendExtendedData are "
            "replaced by a recording connection on the sender side",
@@ -40,6 +43,7 @@ OUTSIDE = ["SSH packet encoding of outgoing data (struct.pack / NS): SSHConnecti
            "symbolic integers up to 1 MiB)",
            "more than two buffered extended-data entries in the inductive pre-state",
            "writes issued by the application after loseConnection()",
+           "re-entrant application hooks other than one write()/writeExtended() of <= pk packets from startWriting()",
            "receiver with localWindowSize == 1: the window is then never replenished (0 < 1 // 2 is false); "
            "progress of the peer is only checked for localWindowSize >= 2",
            "channel open/close handshake, requests, EOF, the SSH transport"]
@@ -85,9 +89,9 @@ class _Conn:
         self.log.append((2, 0, None))
 
 
-def _mk(w, m, buf, ext, closing):
+def _mk(w, m, buf, ext, closing, cls=None):
     conn = _Conn()
-    ch = _chmod.SSHChannel(remoteWindow=w, remoteMaxPacket=m, conn=conn)
+    ch = (cls or _chmod.SSHChannel)(remoteWindow=w, remoteMaxPacket=m, conn=conn)
     if len(buf) > 0:
         ch.buf = buf
     ch.extBuf = [[t, d] for (t, d) in ext]
@@ -469,6 +473,134 @@ def history(w0: int, m: int, o0: int, n0: int, o1: int, n1: int, o2: int, n2: in
     return bool(ch.localClosed) == lost
 
 
+# ---- re-entrant application: startWriting() hook that writes synchronously -----------------------------
+
+class _HookChannel(_chmod.SSHChannel):
+    """an application whose startWriting() override carries on immediately: it writes a fresh span of
+    stream hook-1 (0 normal data, 1 / 2 extended data of that type) from inside addWindowBytes()"""
+    hook = 0
+    hook_n = 0
+    acct = None         # the harness's per-stream count of bytes written so far
+
+    def startWriting(self):
+        h = self.hook
+        if h == 0:
+            return
+        cover("hooked")
+        s = h - 1
+        n = self.hook_n
+        data = rope.span(_BASE[s] + self.acct[s], _BASE[s] + self.acct[s] + n)
+        self.acct[s] = self.acct[s] + n
+        if s == 0:
+            self.write(data)
+        else:
+            self.writeExtended(s, data)
+
+
+def step_addwindow_hook(m: int, s0: int, bl: int, ne: int, t1: int, s1: int, l1: int, s2: int, l2: int,
+                        hm: int, hn: int, inc: int) -> bool:
+    """
+    pre: m >= 1 and m <= B['cap'] and 0 <= bl <= B['hpk'] * m and bl <= B['cap']
+    pre: 0 <= ne <= 2 and 1 <= t1 <= 2 and 1 <= l1 <= B['hpk'] * m and 0 <= l2 <= B['hpk'] * m and l1 <= B['cap'] and l2 <= B['cap']
+    pre: 0 <= s0 <= B['cap'] and 0 <= s1 <= B['cap'] and 0 <= s2 <= B['cap']
+    pre: bl > 0 or ne > 0
+    pre: 0 <= hm <= 3 and 0 <= hn <= B['hpk'] * m and hn <= B['cap']
+    pre: 0 <= inc <= 4 * B['cap']
+    post: _
+    """
+    # arbitrary buffered (not closing) channel state, numbered per stream: s_k bytes of stream k were sent
+    # before; addWindowBytes(inc) calls the startWriting() hook, which re-enters write()/writeExtended()
+    rope.reset()
+    hm = _concrete(hm, 3)
+    sent = [s0, 0, 0]
+    written = [s0 + bl, 0, 0]
+    ext = []
+    if ne >= 1:
+        sent[t1] = s1
+        written[t1] = s1 + l1
+        ext.append((t1, rope.span(_BASE[t1] + s1, _BASE[t1] + s1 + l1)))
+    if ne >= 2:
+        t2 = 3 - t1
+        sent[t2] = s2
+        written[t2] = s2 + l2
+        ext.append((t2, rope.span(_BASE[t2] + s2, _BASE[t2] + s2 + l2)))
+    buf = rope.span(_BASE[0] + s0, _BASE[0] + s0 + bl)
+    ch, conn = _mk(0, m, buf, ext, False, _HookChannel)
+    ch.hook = hm
+    ch.hook_n = hn
+    ch.acct = written
+    before = list(written)
+    if not _inv(ch):
+        return False
+    ch.addWindowBytes(inc)
+    cover()
+    # the hook ran exactly once (writing was off, the channel is not closing)
+    if hm != 0 and written[hm - 1] != before[hm - 1] + hn:
+        return False
+    return _account(ch, conn, inc, m, sent, written, False)
+
+
+def history_hook(w0: int, m: int, o0: int, n0: int, o1: int, n1: int, hm: int, hn: int, inc: int, lose: bool) -> bool:
+    """
+    pre: m >= 1 and 0 <= w0 <= B['cap'] and m <= B['cap']
+    pre: 0 <= o0 <= B['hs'] and 0 <= o1 <= B['hs'] and 0 <= hm <= 3
+    pre: 0 <= n0 <= B['hpk'] * m and 0 <= n1 <= B['hpk'] * m and 0 <= hn <= B['hpk'] * m
+    pre: n0 <= B['cap'] and n1 <= B['cap'] and hn <= B['cap'] and 0 <= inc <= 4 * B['cap']
+    pre: B['hist'] >= 4 or not lose
+    post: _
+    """
+    # fresh channel: two writes, addWindowBytes(inc) with the re-entrant startWriting() hook, optionally
+    # loseConnection, then (hook off) a grant of everything still buffered
+    rope.reset()
+    ch, conn = _mk(w0, m, rope.empty(), [], False, _HookChannel)
+    written = [0, 0, 0]
+    sent = [0, 0, 0]
+    ch.acct = written
+    for (o, n) in ((o0, n0), (o1, n1)):
+        o = _concrete(o, 2)
+        del conn.log[:]
+        wp = ch.remoteWindowLeft
+        data = rope.span(_BASE[o] + written[o], _BASE[o] + written[o] + n)
+        written[o] = written[o] + n
+        if o == 0:
+            ch.write(data)
+        else:
+            ch.writeExtended(o, data)
+        if not _account(ch, conn, wp, m, sent, written, False):
+            return False
+    ch.hook = _concrete(hm, 3)
+    ch.hook_n = hn
+    del conn.log[:]
+    wp = ch.remoteWindowLeft + inc
+    ch.addWindowBytes(inc)
+    if not _account(ch, conn, wp, m, sent, written, False):
+        return False
+    ch.hook = 0
+    lost = False
+    if lose:
+        del conn.log[:]
+        wp = ch.remoteWindowLeft
+        ch.loseConnection()
+        lost = True
+        if not _account(ch, conn, wp, m, sent, written, lost):
+            return False
+    need = len(ch.buf)
+    for e in ch.extBuf:
+        need = need + len(e[1])
+    del conn.log[:]
+    wp = ch.remoteWindowLeft + need
+    ch.addWindowBytes(need)
+    cover()
+    if not _account(ch, conn, wp, m, sent, written, lost):
+        return False
+    if len(ch.buf) != 0 or ch.extBuf:
+        return False
+    for s in range(3):
+        if sent[s] != written[s]:
+            return False
+    return bool(ch.localClosed) == lost
+
+
 # ---- level 2: the real SSHConnection receive path ----------------------------------------------------
 
 class _Packed:
@@ -600,6 +732,11 @@ HARNESSES = [
     H(history, shards=lambda tier: [("o0 == %d" % a, "o1 == %d" % b2) + (("o3 == 5", "n3 == 0") if BOUNDS[tier]["hist"] < 4 else ())
                                     for a in range(5) for b2 in range(5)],
       timeout={"quick": 60, "thorough": 900}),
+    H(step_addwindow_hook, shards=[("ne == %d" % a, "hm == %d" % h) for a in range(3) for h in range(4)],
+      timeout={"quick": 60, "thorough": 600}),
+    H(history_hook, shards=lambda tier: [("o0 == %d" % a, "o1 == %d" % c) for a in range(BOUNDS[tier]["hs"] + 1)
+                                         for c in range(BOUNDS[tier]["hs"] + 1)],
+      labels=("end", "hooked"), timeout={"quick": 60, "thorough": 600}),
     H(recv, shards=[("e1 == %s" % a, "closing == %s" % c) for a in (False, True) for c in (False, True)],
       labels=("end", "refused"),
       timeout={"quick": 60, "thorough": 300}),
@@ -612,6 +749,10 @@ VECTORS = {
     "step_addwindow": [(0, 2, 0, 3, 1, 1, 10, 2, 2, 20, 0, True, 9), (0, 2, 0, 3, 1, 1, 10, 2, 2, 20, 0, False, 4)],
     "step_lose": [(4, 2, 0, 0, 0, 1, 0, 1, 2, 0, 0, False), (0, 2, 0, 2, 0, 1, 0, 1, 2, 0, 0, False)],
     "history": [(3, 2, 0, 2, 1, 2, 4, 0, 5, 0), (0, 1, 2, 1, 3, 1, 0, 1, 5, 0), (1, 3, 1, 3, 2, 2, 4, 0, 5, 0)],
+    "step_addwindow_hook": [(2, 3, 4, 0, 1, 0, 1, 0, 0, 1, 3, 5), (2, 0, 0, 2, 2, 1, 2, 5, 1, 2, 2, 9),
+                            (1, 0, 2, 1, 1, 0, 1, 0, 0, 3, 1, 1), (3, 7, 3, 0, 1, 0, 1, 0, 0, 0, 0, 2)],
+    "history_hook": [(4, 4, 0, 4, 0, 4, 1, 4, 4, False), (0, 2, 1, 2, 0, 2, 2, 2, 9, False),
+                     (1, 1, 1, 1, 1, 1, 3, 1, 0, False), (3, 2, 0, 2, 1, 2, 0, 0, 1, False)],
     "recv": [(10, 10, 4, 3, False, 3, True, False), (10, 2, 4, 3, False, 0, False, False),
              (1, 1, 1, 1, False, 0, False, False), (10, 6, 4, 3, False, 3, True, True), (4, 1, 4, 3, True, 0, False, True)],
 }
